@@ -219,6 +219,9 @@ func (st *dfStats) walk(n *Node, d int) {
 
 // nativeCondOf: the native Condition behind a value however it is typed
 func nativeCondOf(v any) (stk.Condition, bool) {
+	if _, lc, k := unlocal(v); k == 2 {
+		return lc, lc.IsInit()
+	}
 	if b, d := unchain(v); d >= 2 {
 		v = b
 	}
@@ -477,6 +480,9 @@ func (g *dfGen) tree(depth, maxDepth, maxWidth int, malformed bool) *Node {
 	if r.Pct(4) {
 		n.Opt |= 128
 	}
+	if r.Pct(12) {
+		n.Vfail = true // Defrag asks whether the instance is initialised, not whether its policy is content
+	}
 	if r.Pct(10) {
 		n.Mutex = true
 	}
@@ -641,6 +647,18 @@ func genDefrag(ctx *Ctx, emit func(any, string)) {
 		emit(mk(nil, root), "witness")
 		root2 := &Node{T: "stack", Kind: "BASIC", Els: []*Node{dfCondOf(ints(0, 0, 0, 0, 0, 9), ""), ints(1)}}
 		emit(mk(nil, root2), "witness")
+	}
+	// -- a validity policy that fails (because of the gaps, say) on the receiver, on a
+	// nested Stack, on a Stack held by a Condition: Defrag compacts all the same
+	{
+		frag := func(v bool) *Node {
+			n := ints(1, 0, 0, 2, 0, 0, 0, 3)
+			n.Vfail = v
+			return n
+		}
+		emit(mk(nil, frag(true)), "witness")
+		emit(mk(nil, &Node{T: "stack", Kind: "AND", Els: []*Node{frag(true), dfLeaf(5), frag(false)}}), "witness")
+		emit(mk(nil, &Node{T: "stack", Kind: "AND", Vfail: true, Els: []*Node{dfCondOf(frag(true), ""), frag(true)}}), "witness")
 	}
 	// -- length is no limit: five single gaps in 4300 / 6000 elements (layouts on which
 	// the truncation formula is right: last element non-nil)
